@@ -40,7 +40,7 @@ RULE = ('valid texts: product of declaration order, separator style, header subs
         'non-trivial = has at least one data row (valid) / every corrupted text; outcome = verdict of the implementation '
         '(channels, frames, values or the class of error) together with the reference verdict')
 ASSUMPTIONS = [
-    'text is read through io.StringIO (parse_path only for a slice of the valid texts); lines end with a line feed',
+    'text is read through io.StringIO (parse_path only for a slice of the valid texts); lines end with a line feed (part rows: also carriage return + line feed)',
     'a corrupted text may always be refused with a DAT error; a returned result has to agree with the reference reading',
     'where the statement leaves a text open (blank lines, malformed declaration lines, UTIM/DATE/TIME with other units, '
     'numbers before 1970, a header with no further name, no header at all) both refusal and a consistent result are accepted',
@@ -221,6 +221,8 @@ def case_text(case):
     text = dat_ref.join_lines(lines)
     if case.get('nofinal'):
         text = text[:-1]          # the last line is not terminated by a newline: still the same lines
+    if case.get('crlf'):
+        text = text.replace('\n', '\r\n')   # the same lines as a DOS / Windows tool writes them
     return text, model, dat_ref.expected(model)
 
 
@@ -529,6 +531,8 @@ def run_shard(shard, tier):
                         _run_valid(res, {'pool': pool, 'decl': decl, 'sep': shard['sep'], 'hdr': hdr, 'dv': dv})
                     for dv in _dv_combos(n, tier)[:2]:
                         _run_valid(res, {'pool': pool, 'decl': decl, 'sep': shard['sep'], 'hdr': hdr, 'dv': dv, 'nofinal': 1})
+                        _run_valid(res, {'pool': pool, 'decl': decl, 'sep': shard['sep'], 'hdr': hdr, 'dv': dv, 'crlf': 1})
+                        _run_valid(res, {'pool': pool, 'decl': decl, 'sep': shard['sep'], 'hdr': hdr, 'dv': dv, 'crlf': 1, 'nofinal': 1})
     else:
         for pi in shard['orders']:
             decl = [names[i] for i in perms[pi]]
